@@ -15,6 +15,7 @@ def run(index, rep, tier):
     with rep.section("R16.5"):
         from . import c12
         rep.floor("R16.5", "defaults and class-level containers in the parsimony module", 5, c12.shared_mutable_rule(index, rep, "R16.5", [PM]))
+        module_state_rule(index, rep, "R16.5", [PM])
     rep.rule("R16.6", "state sets follow the alphabet: every lazily computed cache of a StateIdentity (fundamental states / symbols / indexes, with and without gaps as missing) is dropped wherever its member states are (re)defined - the scorer reads these caches for every cell")
     with rep.section("R16.6"):
         SI = "dendropy.datamodel.charstatemodel.StateIdentity"
